@@ -486,6 +486,7 @@ class SchedThread(object):
         s = self.sched
         self.ts = s.spawn(self.run, self.name, 'starter')
         self.ts.data['creator'] = getattr(current_ts(), 'tid', None)
+        self.ts.data['daemon'] = bool(self.daemon)     # observation for the harness
         s.touch(('thr', self.ts.tid))
 
     def join(self, timeout=None):
